@@ -506,8 +506,65 @@ E9 == Entry("iface", <<E9_catalog, E9_ratings>>, <<E9_U1, E9_U2, E9_U3, E9_U4>>,
      Op(Doc(<< Fo("media", <<Fl("score"), Inline("Film", <<>>, <<Fo("cast", <<Fl("name")>>), Fo("director", <<Fl("name")>>)>>)>>),
                Fo("latest", <<Fl("__typename"), Fl("title"), Fl("score")>>) >>, <<>>, <<>>), <<>>) >>)
 
+\* ============================================================================ E10 "abstract2"
+\* abstract-type shapes around entity jumps (lifted from the seeded changes C01-1..4): an interface-typed list with two
+\* implementers in the data; the same nested entity selected directly on the interface AND inside a type fragment
+\* (fetch de-duplication of an unscoped and a type-scoped fetch); @requires on an implementer's copy of a shared
+\* interface field, selected next to a fragment on that very type (abstract selection rewriter); a LIST field selected
+\* directly on an interface-typed parent whose items need a key jump (batch entity fetch); a fragment on an interface
+\* whose implementers are declared in NON-alphabetical order (Post before Comment)
+E10_first == SG("first", <<
+  Obj("Query", <<>>, <<>>, << F("account", Ty("Node")), F("accounts", NN(Li(NN(Ty("Node"))))), F("nodes", NN(Li(NN(Ty("Item"))))) >>),
+  Iface("Node", << F("id", NN(TID)), F("title", NN(TStr)), F("some", Ty("User")), F("friends", NN(Li(NN(Ty("User"))))) >>),
+  Obj("User", <<Key(<<FS("id")>>)>>, <<"Node">>,
+      << F("id", NN(TID)), Ext(F("name", NN(TStr))), Req(F("title", NN(TStr)), <<FS("name")>>), F("some", Ty("User")),
+         F("friends", NN(Li(NN(Ty("User"))))) >>),
+  Obj("Admin", <<Key(<<FS("id")>>)>>, <<"Node">>,
+      << F("id", NN(TID)), F("title", NN(TStr)), F("some", Ty("User")), F("friends", NN(Li(NN(Ty("User"))))), F("level", TInt) >>),
+  Iface("Item", << F("id", NN(TID)) >>),
+  Iface("Owned", << F("owner", NN(Ty("User"))) >>),
+  Obj("Post", <<>>, <<"Item", "Owned">>, << F("id", NN(TID)), F("owner", NN(Ty("User"))) >>),
+  Obj("Comment", <<>>, <<"Item", "Owned">>, << F("id", NN(TID)), F("owner", NN(Ty("User"))), F("text", TStr) >>) >>)
+E10_second == SG("second", <<
+  Obj("User", <<Key(<<FS("id")>>)>>, <<>>, << F("id", NN(TID)), F("name", NN(TStr)), F("nick", TStr) >>),
+  Obj("Admin", <<Key(<<FS("id")>>)>>, <<>>, << F("id", NN(TID)), F("adminName", NN(TStr)) >>) >>)
+
+E10_U1 == Uv("all-present", <<
+  O("Q", "Query", [account |-> Ref("a1"), accounts |-> Lst(<<Ref("u1"), Ref("a1"), Ref("u2")>>), nodes |-> Lst(<<Ref("p1"), Ref("c1"), Ref("p2")>>)]),
+  O("u1", "User", [id |-> Str("u1"), name |-> Str("Ann"), nick |-> Str("an"), some |-> Ref("u2"), friends |-> Lst(<<Ref("u2")>>)]),
+  O("u2", "User", [id |-> Str("u2"), name |-> Str("Bob"), nick |-> Str("bo"), some |-> Ref("u1"), friends |-> Lst(<<>>)]),
+  O("a1", "Admin", [id |-> Str("a1"), title |-> Str("Root"), adminName |-> Str("adm"), level |-> Num(9), some |-> Ref("u1"),
+                    friends |-> Lst(<<Ref("u1"), Ref("u2"), Ref("u1")>>)]),
+  O("p1", "Post", [id |-> Str("p1"), owner |-> Ref("u1")]),
+  O("p2", "Post", [id |-> Str("p2"), owner |-> Ref("u2")]),
+  O("c1", "Comment", [id |-> Str("c1"), owner |-> Ref("u2"), text |-> Str("nice")]) >>)
+E10_U2 == Uv("nullable-nulls", <<
+  O("Q", "Query", [account |-> Null, accounts |-> Lst(<<Ref("a1"), Ref("u1")>>), nodes |-> Lst(<<Ref("c1"), Ref("p1")>>)]),
+  O("u1", "User", [id |-> Str("u1"), name |-> Str("Ann"), nick |-> Null, some |-> Null, friends |-> Lst(<<Ref("u1")>>)]),
+  O("a1", "Admin", [id |-> Str("a1"), title |-> Str("Root"), adminName |-> Str("adm"), level |-> Null, some |-> Null, friends |-> Lst(<<>>)]),
+  O("p1", "Post", [id |-> Str("p1"), owner |-> Ref("u1")]),
+  O("c1", "Comment", [id |-> Str("c1"), owner |-> Ref("u1"), text |-> Null]) >>)
+\* (the null in a non-null position sits on the Admin: User.name feeds the @requires of User.title)
+E10_U3 == Uv("null-in-nonnull", <<
+  O("Q", "Query", [account |-> Ref("u1"), accounts |-> Lst(<<Ref("u1"), Ref("a1")>>), nodes |-> Lst(<<Ref("p1"), Ref("c1")>>)]),
+  O("u1", "User", [id |-> Str("u1"), name |-> Str("Ann"), nick |-> Str("an"), some |-> Ref("u1"), friends |-> Lst(<<Ref("u1")>>)]),
+  O("a1", "Admin", [id |-> Str("a1"), title |-> Str("Root"), adminName |-> Null, level |-> Num(1), some |-> Ref("u1"), friends |-> Lst(<<Ref("u1")>>)]),
+  O("p1", "Post", [id |-> Str("p1"), owner |-> Ref("u1")]),
+  O("c1", "Comment", [id |-> Str("c1"), owner |-> Null, text |-> Str("x")]) >>)
+E10_U4 == Uv("empty-lists", <<
+  O("Q", "Query", [account |-> Ref("a1"), accounts |-> Lst(<<>>), nodes |-> Lst(<<>>)]),
+  O("a1", "Admin", [id |-> Str("a1"), title |-> Str("Root"), adminName |-> Str("adm"), level |-> Num(9), some |-> Null, friends |-> Lst(<<>>)]) >>)
+
+E10 == Entry("abstract2", <<E10_first, E10_second>>, <<E10_U1, E10_U2, E10_U3, E10_U4>>, <<>>, <<>>,
+  << Op(Doc(<< Fo("accounts", <<Fo("some", <<Fl("name")>>), Inline("User", <<>>, <<Fo("some", <<Fl("name")>>)>>)>>) >>, <<>>, <<>>), <<>>),
+     Op(Doc(<< Fo("accounts", <<Fl("title"), Inline("User", <<>>, <<Fl("id")>>)>>) >>, <<>>, <<>>), <<>>),
+     Op(Doc(<< Fo("account", <<Fo("friends", <<Fl("name")>>)>>) >>, <<>>, <<>>), <<>>),
+     Op(Doc(<< Fo("nodes", <<Inline("Owned", <<>>, <<Fo("owner", <<Fl("name")>>)>>)>>) >>, <<>>, <<>>), <<>>),
+     Op(Doc(<< Fo("accounts", <<Fl("id"), Fl("title"), Inline("Admin", <<>>, <<Fl("adminName"), Fl("level")>>), Fo("friends", <<Fl("nick"), Fl("title")>>)>>),
+               Fo("nodes", <<Fl("__typename"), Inline("Comment", <<>>, <<Fl("text"), Fo("owner", <<Fl("nick")>>)>>)>>) >>, <<>>, <<>>), <<>>) >>)
+
 \* ============================================================================ the catalog
-Catalog == <<[E1 EXCEPT !.broken = E1_broken], E2, E3, E4, E5, E6, E7, E8, E9>>
+Catalog == <<[E1 EXCEPT !.broken = E1_broken], E2, E3, E4, E5, E6, E7, E8, E9, E10>>
 Supers == TLCEval([i \in DOMAIN Catalog |-> SuperTypes(Catalog[i].sgs)])
 Subs == TLCEval([i \in DOMAIN Catalog |-> TLCEval([j \in DOMAIN Catalog[i].sgs |-> SubTypes(Catalog[i].sgs[j])])])
 
